@@ -7,7 +7,7 @@ produced it.  The tree is uniform: all zero-result exits in mpf/ write both fiel
 19 paired).
 
 Must-dataflow over the Clang CFG, per (function, object parameter): state = (size field holds the constant 0, exponent holds the constant
-0), both set by a store of literal 0 and cleared by any other store to the field; at every exit `size is 0` must imply `exponent is 0`.
+0), both set by a store of literal 0 and cleared by any other store to the field or by handing the object to a callee as a destination; at every exit `size is 0` must imply `exponent is 0`.
 Join = "size-zero on some path" (may) x "exp-zero on all paths" (must), kept apart by partitioning on the size bit.  Stores through a
 local alias of the parameter (r = x) are followed flow-insensitively.  Only literal zeros are judged; sizes computed at run time
 (SIZ (r) = val != 0) are outside this rule."""
@@ -75,6 +75,16 @@ def analyse(fn, prop, F, stats):
                     o = obj_of(l)
                     if o is not None:
                         out.append((o, l["field"], False))
+            if n.get("k") == "call":
+                # the object handed to a callee as a destination (pointer to non-const): the callee sets both fields as it sees fit
+                ps = n.get("params", [])
+                for i_, a_ in enumerate(n.get("args", [])):
+                    a_ = _strip(a_)
+                    if isinstance(a_, dict) and a_.get("k") == "var":
+                        o = a_["id"] if a_["id"] in objs else (next(iter(alias[a_["id"]])) if len(alias.get(a_["id"], ())) == 1 else None)
+                        if o is not None and not (i_ < len(ps) and ps[i_].get("pc")):
+                            out.append((o, "_mp_size", False))
+                            out.append((o, "_mp_exp", False))
         sa.walk(e, f)
         return out
     blocks = sa.blocks_by_id(fn)
@@ -136,12 +146,13 @@ def run(prop="C13", tier="quick"):
         if path != FIXTURE and res["stats"]["zero_size_stores"] > before:
             res["samples"].append(dict(rule="R-MPFZERO", function=fn["name"], file=relpath(path), zero_stores=res["stats"]["zero_size_stores"] - before))
     got = collections.Counter(f.function for f in fx)
-    if not got.get("fix_mpfzero_bad") or not got.get("fix_mpfzero_bad_path") or got.get("fix_mpfzero_good") or got.get("fix_mpfzero_good_order"):
+    if not got.get("fix_mpfzero_bad") or not got.get("fix_mpfzero_bad_path") or got.get("fix_mpfzero_good") or got.get("fix_mpfzero_good_order") \
+            or got.get("fix_mpfzero_good_callee"):
         raise AnalysisBroken("R-MPFZERO fixtures: %r" % dict(got))
     if res["stats"]["zero_size_stores"] < 8:
         raise AnalysisBroken("R-MPFZERO: only %d constant-zero size stores on mpf parameters found (floor 8; today 19)" % res["stats"]["zero_size_stores"])
     res["stats"] = dict(res["stats"])
     res["obligations"] = res["stats"]["zero_size_stores"]
-    res["notes"].append("fixtures: 2 positive fired, 2 negative silent")
+    res["notes"].append("fixtures: 2 positive fired, 3 negative silent")
     res["exhaustive"] = True
     return res
